@@ -21,6 +21,8 @@ CANARIES = [
     ('worker marks the task done before it queues the result', 'worker_contract', {'mapproxy.util.async_': [[
         "                self.result_queue.put((exec_id, result))\n                self.task_queue.task_done()",
         "                self.task_queue.task_done()\n                self.result_queue.put((exec_id, result))"]]}),
+    ('forced drain does not expect a concurrent taker', 'forced_drain_tolerates_concurrent_taker', {'mapproxy.util.async_': [[
+        "        except Queue.Empty:\n            pass", "        except ZeroDivisionError:\n            pass"]]}),
     ('sequential branch attributes exception to nobody', 'sequential_branch', {'mapproxy.util.async_': [[
         "                except Exception:\n                    yield sys.exc_info()\n            return",
         "                except Exception:\n                    pass\n            return"]]}),
@@ -30,12 +32,13 @@ CANARIES = [
 def obligations(tier, seed):
     specs = []
     quick = [('order_n2', 60), ('order_n3', 120), ('order_n4_nofail', 120), ('raising_n2', 60), ('raising_n3', 120),
-             ('order_result_objects_imap', 150), ('sequential_branch', 60), ('single_call', 60), ('worker_contract', 90), ('starmap_one_result_per_item', 60), ('forced_shutdown_drains_both_queues', 60)]
+             ('order_result_objects_imap', 150), ('sequential_branch', 60), ('single_call', 60), ('worker_contract', 90), ('starmap_one_result_per_item', 60), ('forced_shutdown_drains_both_queues', 60),
+             ('forced_drain_tolerates_concurrent_taker', 60)]
     thorough = [('order_n4', 1200), ('raising_n4', 1200), ('order_n5_nofail', 900), ('order_n6_nofail', 1500)]
     for f, to in quick + (thorough if tier == 'thorough' else []):
         specs.append(crosshair_runner.spec(MOD, CH, f, 'pool/' + f, timeout=to, cost=to, functions=FUNCS))
     specs.append(crosshair_runner.spec(MOD, CH, 'twin_order', 'twin/pool-order', kind='witness', timeout=60))
-    for label, f, patches in (CANARIES if tier == 'thorough' else CANARIES[:4]):
+    for label, f, patches in (CANARIES if tier == 'thorough' else CANARIES[:5]):
         specs.append(crosshair_runner.spec(MOD, CH, f, 'canary/%s' % label, kind='canary', timeout=120, patches=patches, cost=30))
     return specs
 
